@@ -433,8 +433,7 @@ def t1(ctx):
         cfgs = [
             dict(leaves=["b", "x"], lits=[], ctors=["And", "Not", "FluentExp"], maxar=2, maxops=4),
             dict(leaves=["b", "c", "x"], lits=["f2.0"], ctors=["And", "Not", "Plus", "GE", "Equals", "FluentExp"], maxar=2, maxops=3),
-            dict(leaves=["b", "x", "y"], lits=["q1/2"], ctors=["Or", "Not", "Times", "Div", "GT", "Iff", "FluentExp"], maxar=2, maxops=3),
-            dict(leaves=["b", "x"], lits=["f2.0"], ctors=["And", "Or", "Plus", "FluentExp"], maxar=3, maxops=3),
+            dict(leaves=["b", "x"], lits=["q1/2"], ctors=["Or", "Times", "Div", "GT", "Iff", "FluentExp"], maxar=3, maxops=2),
             dict(leaves=["b", "c", "x"], lits=["i2", "f2.0", "q1/2"], ctors=ALL_CTORS, maxar=2, maxops=2),
         ]
     for c in cfgs:
@@ -490,7 +489,7 @@ def run(ctx):
             plan("respell", "respell", 0, ALL_CTORS, ["b", "c", "x"], ["i2", "f2.0", "s2", "q4/2", "q1/2", "f0.5", "i0"], direct=True),
             plan("seq3-all", "seq", 3, ALL_CTORS, ["b", "c", "x"], ["i2", "f2.0", "q1/2"]),
             plan("seq3-ternary", "seq", 3, ["And", "Or", "Plus", "Times", "Not", "FluentExp"], ["b", "x"], ["f2.0"], maxar=3),
-            plan("seq4-A1", "seq", 4, ["And", "Not", "Plus", "GE", "Equals", "FluentExp"], ["b", "x"], ["f2.0"]),
+            plan("seq4", "seq", 4, ["And", "Not", "Plus", "GE", "FluentExp"], ["b", "x"], []),
             plan("seq2-direct", "seq", 2, ["And", "Not", "Plus", "Div", "GT", "Equals"], ["b", "x"], ["i2", "q1/2"], direct=True),
         ]
     by = enumerate_histories(ctx, plans, parallel=not q)
@@ -503,7 +502,7 @@ def run(ctx):
             jobs.append(("replay", tid, h))
     nenum = len(jobs)
     # ---- T3: seeded long random histories over the whole alphabet ----------------------------
-    nr = 600 if q else 10000
+    nr = 600 if q else 6000
     jobs += [("random", 10000000 + i, (ctx.rng.getrandbits(48), ctx.rng.randint(8, 40))) for i in range(nr)]
     traces = run_jobs(ctx, jobs)
     _dbg(ctx, "replayed %d histories" % len(traces))
